@@ -123,7 +123,7 @@ def rand_env(rng, faults=0.0, msg=True):
     return e
 
 
-def gen_history(rng, valid):
+def gen_history(rng, valid, long_lived=False):
     ops = []
     nproc = rng.choice([1, 2, 2, 3, 3, 4, 5])
     for p in range(nproc):
@@ -146,7 +146,7 @@ def gen_history(rng, valid):
             r = rng.random()
             if r < 0.6:
                 t = rng.randrange(2)
-                if valid and t in dirty:
+                if valid and t in dirty and not long_lived:
                     continue
                 held.add(t)
                 ops.append(["F", t, rng.choice([1, 1, 2, 3]), 0 if (not valid and rng.random() < 0.3) else rng.choice([1, 1, 2, 4])])
@@ -193,8 +193,14 @@ def gen_cases(rng, n):
         [["I", rand_env(rng)], ["F", 0, 1, 1], ["F", 0, 2, 1], ["F", 1, 2, 1], ["C", dict(rand_env(rng), msg=1)], ["F", 0, 1, 1]],
     ]
     fixed.append([["I", rand_env(rng)], ["F", 0, 1, 1], ["I", rand_env(rng)], ["U", 0, 1], ["F", 0, 2, 1], ["I", rand_env(rng)], ["F", 0, 1, 1]])
+    # a process that holds the old table creates a cache AFTER the update, beside an older cache: remove-all-on-stale takes both
+    fixed.append([["I", rand_env(rng)], ["F", 0, 1, 1], ["U", 0, 1], ["F", 0, 2, 1], ["I", rand_env(rng)], ["F", 0, 2, 1]])
+    fixed.append([["I", rand_env(rng)], ["F", 1, 2, 1], ["F", 0, 1, 1], ["U", 1, 2], ["F", 1, 1, 1], ["F", 1, 3, 2], ["I", rand_env(rng)], ["F", 1, 3, 1]])
     for ops in fixed:
         cases.append({"ops": ops, "valid": True, "stream": "fixed"})
+    # ... and the same without a surviving older cache (forced clear in between): the mtime criterion cannot see it
+    cases.append({"ops": [["I", rand_env(rng)], ["F", 0, 1, 1], ["U", 0, 1], ["C", rand_env(rng)], ["F", 0, 2, 1], ["I", rand_env(rng)], ["F", 0, 2, 1]],
+                  "valid": True, "stream": "long-lived"})
     fixed_bad = [
         [["I", rand_env(rng)], ["F", 0, 1, 1], ["U", 0, 0], ["I", rand_env(rng)], ["F", 0, 1, 1]],             # equal mtimes
         [["D", 0], ["I", rand_env(rng)], ["F", 1, 1, 1]],                                              # missing source
@@ -208,8 +214,11 @@ def gen_cases(rng, n):
         if r < 0.05:
             for ops in gen_crash_family(rng):
                 cases.append({"ops": ops, "valid": True, "stream": "crash-every-k"})
-        elif r < 0.75:
+        elif r < 0.62:
             cases.append({"ops": gen_history(rng, True), "valid": True, "stream": "valid"})
+        elif r < 0.75:
+            # processes that outlive a table update and create caches afterwards (clock assumption kept, process assumption not)
+            cases.append({"ops": gen_history(rng, True, long_lived=True), "valid": True, "stream": "long-lived"})
         else:
             cases.append({"ops": gen_history(rng, False), "valid": False, "stream": "malformed"})
     for i, c in enumerate(cases):
@@ -395,6 +404,15 @@ def run(ck: vlib.Check):
             if per_kind[kind] > 3:          # shortest three distinct minimal histories per kind; the rest is counted below
                 continue
             v = vs[0]
+            if kind == "stale-cache-after-import:process-held-old-table":
+                if per_kind[kind] > 1:
+                    continue
+                ck.violation(f"C17:{kind}",
+                             f"{v['detail']} — a process that loaded a table before the file was re-written created a cache afterwards and no "
+                             f"older cache of that table survived until the next import, so the mtime comparison keeps a cache compiled from the "
+                             f"old table; shortest history found: {sh} ({len(by_key)} distinct minimal histories of all kinds in this run)",
+                             {"mode": "replay", "kind": kind, "ops": v["ops"]})
+                continue
             ck.violation(f"C17:{kind}:{sh}",
                          f"{kind}: {v['detail']} — minimal operation list {sh} (reached from {len(vs)} generated case(s), e.g. {v['from_case']})",
                          {"mode": "replay", "kind": kind, "ops": v["ops"]})
